@@ -607,7 +607,7 @@ def const_code(rng, ty):
 
 
 def random_program(rng, types=None):
-    types = types or ["max", "dual", "opt", "bool", "pair", "set", "bset", "cp"]
+    types = types or ["max", "dual", "opt", "bool", "pair", "prod", "set", "bset", "cp"]
     nplain = rng.choice([1, 2, 2, 3])
     nlat = rng.choice([1, 1, 2, 2, 3])
     rels = [("r%d" % i, rng.choice([1, 2, 2, 3]), "rel") for i in range(nplain)]
